@@ -34,6 +34,16 @@ pub proof fn axiom_vec_node_len<T>(v: &Vec<Node<T>>)
 {
 }
 
+pub proof fn lemma_id_eq(a: NodeId, b: NodeId)
+    requires
+        a.idx() == b.idx(),
+        a.stamp == b.stamp,
+    ensures
+        a == b,
+{
+    axiom_nonzero_ext(a.index1, b.index1);
+}
+
 // derived `PartialEq` on plain data is structural equality (R6)
 impl vstd::std_specs::cmp::PartialEqSpecImpl for NodeId {
     open spec fn obeys_eq_spec() -> bool {
@@ -136,6 +146,7 @@ pub open spec fn no_links<T>(n: Node<T>) -> bool {
         && n.last_child is None
 }
 
+#[verifier::opaque]
 pub open spec fn node_ok<T>(s: Seq<Node<T>>, i: int) -> bool {
     let n = s[i];
     if n.stamp.removed() {
@@ -526,6 +537,7 @@ pub proof fn lemma_alloc_links<T>(o: Seq<Node<T>>, n: Seq<Node<T>>, x: int)
         exists|w: Ranks| ranked(n, w),
         data_ok(n),
 {
+    reveal(node_ok);
     let w = choose|w: Ranks| ranked(o, w);
     let w2 = Ranks { depth: |i: int| if i == x { 0nat } else { (w.depth)(i) }, rem: w.rem, pos: w.pos, bound: w.bound };
     assert forall|i: int| 0 <= i < n.len() implies #[trigger] ranked_at(n, w2, i) by {
@@ -554,5 +566,293 @@ pub proof fn lemma_fl_popped_slot<T>(s: Seq<Node<T>>, first: Option<usize>, last
         0 <= x < s.len() && s[x].stamp.can_reuse() && !(s[x].data is Data),
 {
     reveal(free_list_popped);
+}
+
+// ---- link-level effects of the helpers (C03, C04) ------------------------------------------
+/// exact effect of `connect_neighbors`, mirroring the code (`first_child.or(previous)`)
+pub open spec fn connect_post<T>(o: Seq<Node<T>>, n: Seq<Node<T>>, parent: Option<NodeId>, previous: Option<NodeId>, next: Option<NodeId>) -> bool {
+    &&& n.len() == o.len()
+    &&& forall|i: int|
+        0 <= i < o.len() ==> {
+            &&& (#[trigger] n[i]).stamp == o[i].stamp
+            &&& n[i].data == o[i].data
+            &&& n[i].parent == o[i].parent
+            &&& n[i].previous_sibling == (if next is Some && i == (next->0).idx() {
+                previous
+            } else {
+                o[i].previous_sibling
+            })
+            &&& n[i].next_sibling == (if previous is Some && i == (previous->0).idx() {
+                next
+            } else {
+                o[i].next_sibling
+            })
+            &&& n[i].first_child == (if parent is Some && i == (parent->0).idx() {
+                if previous is Some {
+                    if o[i].first_child is Some {
+                        o[i].first_child
+                    } else {
+                        previous
+                    }
+                } else {
+                    next
+                }
+            } else {
+                o[i].first_child
+            })
+            &&& n[i].last_child == (if parent is Some && i == (parent->0).idx() {
+                if next is Some {
+                    if o[i].last_child is Some {
+                        o[i].last_child
+                    } else {
+                        next
+                    }
+                } else {
+                    previous
+                }
+            } else {
+                o[i].last_child
+            })
+        }
+}
+
+/// cutting the range f..l out of its sibling list (the parents of the range are left stale)
+pub open spec fn detach_range_post<T>(o: Seq<Node<T>>, n: Seq<Node<T>>, f: int, l: int) -> bool {
+    let parent = o[f].parent;
+    let prev = o[f].previous_sibling;
+    let next = o[l].next_sibling;
+    &&& n.len() == o.len()
+    &&& forall|i: int|
+        0 <= i < o.len() ==> {
+            &&& (#[trigger] n[i]).stamp == o[i].stamp && n[i].data == o[i].data && n[i].parent == o[i].parent
+            &&& n[i].previous_sibling == (if i == f {
+                None
+            } else if next is Some && i == next->0.idx() {
+                prev
+            } else {
+                o[i].previous_sibling
+            })
+            &&& n[i].next_sibling == (if i == l {
+                None
+            } else if prev is Some && i == prev->0.idx() {
+                next
+            } else {
+                o[i].next_sibling
+            })
+            &&& n[i].first_child == (if parent is Some && i == parent->0.idx() && prev is None {
+                next
+            } else {
+                o[i].first_child
+            })
+            &&& n[i].last_child == (if parent is Some && i == parent->0.idx() && next is None {
+                prev
+            } else {
+                o[i].last_child
+            })
+        }
+}
+
+/// c is the next_sibling chain starting at slot f and ending at a node without next sibling
+pub open spec fn is_chain<T>(s: Seq<Node<T>>, f: int, c: Seq<int>) -> bool {
+    &&& c.len() > 0
+    &&& c[0] == f
+    &&& forall|k: int| 0 <= k < c.len() ==> 0 <= #[trigger] c[k] < s.len()
+    &&& forall|k: int|
+        0 <= k < c.len() - 1 ==> (#[trigger] s[c[k]]).next_sibling is Some && s[c[k]].next_sibling->0.idx() == c[k + 1]
+    &&& s[c[c.len() - 1]].next_sibling is None
+}
+
+pub open spec fn same_but_parent<T>(a: Node<T>, b: Node<T>) -> bool {
+    &&& a.stamp == b.stamp && a.data == b.data && a.previous_sibling == b.previous_sibling
+    &&& a.next_sibling == b.next_sibling && a.first_child == b.first_child && a.last_child == b.last_child
+}
+
+/// every node of the chain gets `new_parent`; nothing else changes
+pub open spec fn reparent_post<T>(o: Seq<Node<T>>, n: Seq<Node<T>>, c: Seq<int>, new_parent: Option<NodeId>) -> bool {
+    &&& n.len() == o.len()
+    &&& forall|i: int|
+        0 <= i < o.len() ==> {
+            &&& same_but_parent(#[trigger] n[i], o[i])
+            &&& n[i].parent == (if c.contains(i) {
+                new_parent
+            } else {
+                o[i].parent
+            })
+        }
+}
+
+pub proof fn lemma_subrange_step(c: Seq<int>, k: int)
+    requires
+        0 <= k < c.len(),
+    ensures
+        forall|i: int| c.subrange(0, k + 1).contains(i) == (c.subrange(0, k).contains(i) || i == c[k]),
+{
+    assert(c.subrange(0, k + 1) =~= c.subrange(0, k).push(c[k]));
+    assert forall|i: int| c.subrange(0, k + 1).contains(i) == (c.subrange(0, k).contains(i) || i == c[k]) by {
+        if c.subrange(0, k).contains(i) {
+            let j = choose|j: int| 0 <= j < k && c.subrange(0, k)[j] == i;
+            assert(c.subrange(0, k + 1)[j] == i);
+        }
+        if i == c[k] {
+            assert(c.subrange(0, k + 1)[k] == i);
+        }
+    }
+}
+
+pub proof fn lemma_chain_prefix<T>(s: Seq<Node<T>>, f: int, c: Seq<int>, d: Seq<int>, n: int)
+    requires
+        is_chain(s, f, c),
+        is_chain(s, f, d),
+        0 <= n < c.len(),
+        n < d.len(),
+    ensures
+        forall|k: int| 0 <= k <= n ==> c[k] == d[k],
+    decreases n,
+{
+    if n > 0 {
+        lemma_chain_prefix(s, f, c, d, n - 1);
+        assert(c[n - 1] == d[n - 1]);
+        assert(s[c[n - 1]].next_sibling->0.idx() == c[n]);
+        assert(s[d[n - 1]].next_sibling->0.idx() == d[n]);
+    }
+}
+
+pub proof fn lemma_chain_unique<T>(s: Seq<Node<T>>, f: int, c: Seq<int>)
+    requires
+        is_chain(s, f, c),
+    ensures
+        forall|d: Seq<int>| is_chain(s, f, d) ==> d == c,
+{
+    assert forall|d: Seq<int>| is_chain(s, f, d) implies d == c by {
+        lemma_chain_prefix(s, f, c, d, (if c.len() <= d.len() { c.len() } else { d.len() }) as int - 1);
+        if c.len() < d.len() {
+            assert(s[c[c.len() - 1]].next_sibling is None);
+            assert(s[d[c.len() - 1]].next_sibling is Some);
+        }
+        if d.len() < c.len() {
+            assert(s[d[d.len() - 1]].next_sibling is None);
+            assert(s[c[d.len() - 1]].next_sibling is Some);
+        }
+        assert(d =~= c);
+    }
+}
+
+// ---- consequences of well-formedness used by the exec proofs ---------------------------------
+/// a node that names a parent is on that parent's child list, so the parent has a first child
+pub proof fn lemma_parent_has_first<T>(s: Seq<Node<T>>, w: Ranks, y: int)
+    requires
+        links_ok(s),
+        ranked(s, w),
+        0 <= y < s.len(),
+        !s[y].stamp.removed(),
+        s[y].parent is Some,
+    ensures
+        s[s[y].parent->0.idx()].first_child is Some,
+    decreases (w.pos)(y),
+{
+    reveal(node_ok);
+    assert(node_ok(s, y));
+    if s[y].previous_sibling is Some {
+        let z = s[y].previous_sibling->0.idx();
+        assert(node_ok(s, z));
+        assert(ranked_at(s, w, z));
+        lemma_parent_has_first(s, w, z);
+    }
+}
+
+pub proof fn lemma_parent_has_last<T>(s: Seq<Node<T>>, w: Ranks, y: int)
+    requires
+        links_ok(s),
+        ranked(s, w),
+        0 <= y < s.len(),
+        !s[y].stamp.removed(),
+        s[y].parent is Some,
+    ensures
+        s[s[y].parent->0.idx()].last_child is Some,
+    decreases (w.rem)(y),
+{
+    reveal(node_ok);
+    assert(node_ok(s, y));
+    if s[y].next_sibling is Some {
+        let z = s[y].next_sibling->0.idx();
+        assert(node_ok(s, z));
+        assert(ranked_at(s, w, y));
+        lemma_parent_has_last(s, w, z);
+    }
+}
+
+/// the local facts `detach_from_siblings(f..l)` relies on (all consequences of well-formedness)
+pub open spec fn detach_facts<T>(s: Seq<Node<T>>, f: int, l: int) -> bool {
+    let p = s[f].parent;
+    let a = s[f].previous_sibling;
+    let b = s[l].next_sibling;
+    &&& p is Some ==> {
+        let pi = p->0.idx();
+        &&& 0 <= pi < s.len() && !s[pi].stamp.removed() && pi != f && pi != l
+        &&& (s[pi].first_child is Some) == (s[pi].last_child is Some)
+        &&& (a is Some || b is Some) ==> s[pi].first_child is Some
+        &&& s[pi].first_child is Some ==> {
+            let x = s[pi].first_child->0.idx();
+            0 <= x < s.len() && s[x].parent == p && s[x].previous_sibling is None && (a is Some ==> x != f) && (b is Some ==> x
+                != b->0.idx())
+        }
+        &&& s[pi].last_child is Some ==> {
+            let y = s[pi].last_child->0.idx();
+            0 <= y < s.len() && s[y].parent == p && s[y].next_sibling is None && (b is Some ==> y != l) && (a is Some ==> y
+                != a->0.idx())
+        }
+        &&& a is None ==> is_me(s, f, s[pi].first_child)
+        &&& b is None ==> is_me(s, l, s[pi].last_child)
+    }
+    &&& a is Some ==> {
+        let ai = a->0.idx();
+        0 <= ai < s.len() && !s[ai].stamp.removed() && s[ai].parent == p && ai != f && is_me(s, f, s[ai].next_sibling)
+    }
+    &&& b is Some ==> {
+        let bi = b->0.idx();
+        0 <= bi < s.len() && !s[bi].stamp.removed() && s[bi].parent == p && bi != l && is_me(s, l, s[bi].previous_sibling)
+    }
+}
+
+pub proof fn lemma_detach_facts<T>(s: Seq<Node<T>>, w: Ranks, f: int, l: int)
+    requires
+        links_ok(s),
+        ranked(s, w),
+        0 <= f < s.len(),
+        0 <= l < s.len(),
+        !s[f].stamp.removed(),
+        !s[l].stamp.removed(),
+        s[f].parent == s[l].parent,
+    ensures
+        detach_facts(s, f, l),
+{
+    reveal(node_ok);
+    assert(node_ok(s, f));
+    assert(node_ok(s, l));
+    let p = s[f].parent;
+    let a = s[f].previous_sibling;
+    let b = s[l].next_sibling;
+    if a is Some {
+        assert(node_ok(s, a->0.idx()));
+    }
+    if b is Some {
+        assert(node_ok(s, b->0.idx()));
+    }
+    if p is Some {
+        let pi = p->0.idx();
+        assert(node_ok(s, pi));
+        lemma_parent_has_first(s, w, f);
+        lemma_parent_has_last(s, w, l);
+        if s[pi].first_child is Some {
+            let x = s[pi].first_child->0.idx();
+            assert(node_ok(s, x));
+            lemma_id_eq(s[x].parent->0, p->0);
+        }
+        if s[pi].last_child is Some {
+            let y = s[pi].last_child->0.idx();
+            assert(node_ok(s, y));
+            lemma_id_eq(s[y].parent->0, p->0);
+        }
+    }
 }
 
